@@ -283,6 +283,7 @@ def run_property(prop, spec, tier, seed, only_units=None):
     if violations and not undecided_blocks(undecided):
         # group by job: replay the first failing obligation of each job, list all
         seen_jobs = {}
+        n_replayed = 0
         for (j, r, ob, obkey) in violations:
             seen_jobs.setdefault(j.key, []).append((j, r, ob, obkey))
         for jk, lst in seen_jobs.items():
@@ -301,7 +302,10 @@ def run_property(prop, spec, tier, seed, only_units=None):
                     if cand and r2.traces.get(cand[0]['name']):
                         r, ob = r2, cand[0]
                         print('  (inductive-step failure; concrete counterexample found by unwinding: %s)' % ob['name'])
-                if j.replay is not None:
+                if j.replay is not None and n_replayed >= 6:
+                    info = {'reproduced': None, 'detail': 'not replayed (replay budget: the first 6 failing jobs of a run are replayed)', 'input': None}
+                elif j.replay is not None:
+                    n_replayed += 1
                     try:
                         info = j.replay(j, r, ob) or info
                     except Exception:
@@ -325,8 +329,10 @@ def run_property(prop, spec, tier, seed, only_units=None):
             rc = 2
         elif undecided_blocks(undecided):
             rc = 2
-    for l in vio_lines:
+    for l in vio_lines[:12]:
         print(l)
+    if len(vio_lines) > 12:
+        print('(+%d more VIOLATION lines for property %s suppressed; all replay files are under %s)' % (len(vio_lines) - 12, prop, REPLAYS))
 
     # ------------------------------------------------------------ evidence
     funcs, trusted, assumptions, dropped, rules = [], [], [], [], []
